@@ -38,8 +38,9 @@ def run_worker_shard(spec, col: Collector):
     rounds = [k for (k, _pi) in mine] + [rng.randint(5, 6) for _ in range(spec["n_random"])]
     perm_index = {str(j): pi for j, (_k, pi) in enumerate(mine)}
     no = spec["shard_no"]
-    base = 24000 + no * 40
-    wspec = {"seed": f"{spec['seed']}/{spec['shard']}", "tmp": tempfile.mkdtemp(prefix=f"v02w{no}-"), "host": f"wp{no:x}{spec['seed'] % 256:02x}", "shm_port": base + 3,
+    from vlib.common import ports
+    block, base = ports.acquire()
+    wspec = {"seed": f"{spec['seed']}/{spec['shard']}", "tmp": tempfile.mkdtemp(prefix=f"v02w{no}-"), "host": f"wp{block:03x}", "shm_port": base + 3,
              "callback": f"tcp://localhost:{base + 1}", "rounds": rounds, "perm_index": perm_index}
     fd, path = tempfile.mkstemp(prefix="v02spec", suffix=".json")
     with os.fdopen(fd, "w") as f:
@@ -61,6 +62,7 @@ def run_worker_shard(spec, col: Collector):
     finally:
         os.unlink(path)
         import shutil
+        ports.release(block)
         shutil.rmtree(wspec["tmp"], ignore_errors=True)
     res = None
     for ln in out.splitlines():
@@ -103,5 +105,5 @@ def plan(tier, seed, scale=1.0):
         nsh = 8
         parts = [ENUM[i::nsh] for i in range(nsh)]
     for i, part in enumerate(parts):
-        specs.append(dict(kind="worker", shard=f"w{i}", shard_no=i, enum=part, n_random=1 if q else 8, budget_s=100 if q else 900, timeout_s=200 if q else 1200, prop="C02"))
+        specs.append(dict(kind="worker", phase=1, shard=f"w{i}", shard_no=i, enum=part, n_random=1 if q else 8, budget_s=100 if q else 900, timeout_s=200 if q else 1200, prop="C02"))
     return specs
